@@ -29,8 +29,16 @@ SHRINK_PLAN = False
 KEYS = ["sample", "operator", "purpose", "k1", "k2"]
 
 
+IDENTITY = ["plan_name", "plan_type"]  # the keys of the 'plan identity' layer
+
+
 def rand_md(rng, tag):
-    return {k: f"{tag}-{k}" for k in KEYS if rng.random() < 0.5}
+    md = {k: f"{tag}-{k}" for k in KEYS if rng.random() < 0.5}
+    # the identity layer sits between the persistent and the open_run metadata: only these keys can tell
+    for k in IDENTITY:
+        if rng.random() < 0.15:
+            md[k] = f"{tag}-{k}"
+    return md
 
 
 def cases(seed, tier):
@@ -123,8 +131,12 @@ def check(res):
                     if doc.get(k) != want:
                         src = "call kwargs" if k in call_md else "open_run" if k in omd else "persistent md" if k in persistent else "nowhere"
                         out.append(V("metadata-precedence", f"start[{k!r}] = {doc.get(k)!r}, expected {want!r} (from {src})", key=k))
-                if doc.get("plan_name") != step.get("plan_name", ""):
-                    out.append(V("plan-identity", f"plan_name {doc.get('plan_name')!r} vs {step.get('plan_name')!r}"))
+                identity = {"plan_name": step.get("plan_name", ""), "plan_type": "generator"}
+                for k in IDENTITY:
+                    want = call_md.get(k, omd.get(k, identity[k]))
+                    if doc.get(k) != want:
+                        src = "call kwargs" if k in call_md else "open_run" if k in omd else "the plan's identity (which overlays the persistent metadata)"
+                        out.append(V("plan-identity", f"start[{k!r}] = {doc.get(k)!r}, expected {want!r} from {src}; persistent md has {persistent.get(k)!r}", key=k))
                 if tagged and doc.get("normalized") is not True:
                     out.append(V("normalizer-not-applied", "md_normalizer's tag is missing from the RunStart"))
                 if doc.get("scan_id") != last_scan + 1 and not reject_key:
